@@ -122,6 +122,13 @@ func VerifC05Dep(s string) int {
 	if c := eqDependency(d1, &d3); c != 0 {
 		return 21 + c
 	}
+	// parsing back into a value that already holds a result (a re-used struct) gives that same result again
+	if err := d3.UnmarshalControl(mc); err != nil {
+		return 40
+	}
+	if c := eqDependency(d1, &d3); c != 0 {
+		return 40 + c
+	}
 	return 0
 }
 
@@ -237,6 +244,14 @@ func VerifC04Accept(s, expect string) int {
 	if verifDump(&u) != expect {
 		return 5
 	}
+	// the same field into the value that already holds it (a decoder re-using a struct): the structure it denotes,
+	// not that structure twice
+	if err := u.UnmarshalControl(s); err != nil {
+		return 6
+	}
+	if verifDump(&u) != expect {
+		return 7
+	}
 	return 0
 }
 
@@ -332,7 +347,7 @@ func VerifC06Set(n int, not bool, e0A, e0O, e0C, e1A, e1O, e1C, e2A, e2O, e2C, o
 // returned with all of them intact.
 func VerifC06Select(sv0, sv1, sv2, sv3, sv4, sv5, emp0, emp1, emp2, emp3, emp4, emp5, not0, not1, not2, not3, not4, not5 bool,
 	e0, e1, e2, e3, e4, e5, o string,
-	qf0, qf1, qf2, qf3, qf4, qf5, vr0, vr1, vr2, vr3, vr4, vr5, st0, st1, st2, st3, st4, st5 bool, q string) int {
+	qf0, qf1, qf2, qf3, qf4, qf5, vr0, vr1, vr2, vr3, vr4, vr5, st0, st1, st2, st3, st4, st5 bool, q string, nm string) int {
 	qf := []bool{qf0, qf1, qf2, qf3, qf4, qf5}
 	vr := []bool{vr0, vr1, vr2, vr3, vr4, vr5}
 	stg := []bool{st0, st1, st2, st3, st4, st5}
@@ -341,8 +356,10 @@ func VerifC06Select(sv0, sv1, sv2, sv3, sv4, sv5, emp0, emp1, emp2, emp3, emp4, 
 	emp := []bool{emp0, emp1, emp2, emp3, emp4, emp5}
 	not := []bool{not0, not1, not2, not3, not4, not5}
 	ent := []string{e0, e1, e2, e3, e4, e5}
-	names := []string{"p0", "p1", "p2", "p3", "p4", "p5"}
+	// nm: six package names of one character each (alternatives may share a name: "foo (>= 1), foo (<< 2)")
+	names := []string{nm[0:1], nm[1:2], nm[2:3], nm[3:4], nm[4:5], nm[5:6]}
 	arch := Arch{"gnu", "linux", o}
+	wantSelIdx, wantAllIdx := []int{}, []int{}
 	dep := &Dependency{}
 	wantSel := []string{}
 	wantAll := []string{}
@@ -376,14 +393,16 @@ func VerifC06Select(sv0, sv1, sv2, sv3, sv4, sv5, emp0, emp1, emp2, emp3, emp4, 
 			built[k] = p
 			rel.Possibilities = append(rel.Possibilities, p)
 			wantAll = append(wantAll, names[k])
+			wantAllIdx = append(wantAllIdx, k)
 			if admits && !chosen {
 				chosen = true
 				wantSel = append(wantSel, names[k])
+				wantSelIdx = append(wantSelIdx, k)
 			}
 		}
 		dep.Relations = append(dep.Relations, rel)
 	}
-	check := func(got []Possibility, want []string, subst bool) bool {
+	check := func(got []Possibility, want []string, idx []int, subst bool) bool {
 		if len(got) != len(want) {
 			return false
 		}
@@ -394,22 +413,21 @@ func VerifC06Select(sv0, sv1, sv2, sv3, sv4, sv5, emp0, emp1, emp2, emp3, emp4, 
 			if subst {
 				continue
 			}
-			for k := range names {
-				if names[k] == want[i] && (got[i].Arch != built[k].Arch || got[i].Version != built[k].Version ||
-					got[i].Architectures != built[k].Architectures || len(got[i].StageSets) != len(built[k].StageSets)) {
-					return false
-				}
+			k := idx[i]
+			if got[i].Arch != built[k].Arch || got[i].Version != built[k].Version ||
+				got[i].Architectures != built[k].Architectures || len(got[i].StageSets) != len(built[k].StageSets) {
+				return false
 			}
 		}
 		return true
 	}
-	if !check(dep.GetPossibilities(arch), wantSel, false) {
+	if !check(dep.GetPossibilities(arch), wantSel, wantSelIdx, false) {
 		return 1
 	}
-	if !check(dep.GetAllPossibilities(), wantAll, false) {
+	if !check(dep.GetAllPossibilities(), wantAll, wantAllIdx, false) {
 		return 2
 	}
-	if !check(dep.GetSubstvars(), wantSub, true) {
+	if !check(dep.GetSubstvars(), wantSub, nil, true) {
 		return 3
 	}
 	return 0
@@ -421,6 +439,9 @@ func VerifC06Sat(op, n string, ev uint, uv, rv string) int {
 	v := version.Version{Epoch: ev, Version: uv, Revision: rv}
 	rel := VersionRelation{Number: n, Operator: op}
 	got := rel.SatisfiedBy(v)
+	if rel.SatisfiedBy(v) != got {
+		return 2 // the same question, a different answer
+	}
 	vn, err := version.Parse(n)
 	want := false
 	if err == nil {
